@@ -4,8 +4,6 @@ import (
 	"fmt"
 	"os"
 	"strings"
-
-	"github.com/jmeaster30/vore/libvore/algo"
 )
 
 type PathEntryType int
@@ -57,31 +55,22 @@ func pathMatches(target string, matches string) bool {
 		return target == matches
 	}
 
-	matchParts := algo.Window(algo.SplitKeep(matches, "*"), 2)
-
-	result := true
-	for _, part := range matchParts {
-		if len(part) == 1 {
-			if part[0] != "*" && target != part[0] {
-				result = false
-			}
-			break
-		} else if part[0] == "*" {
-			splitStart := strings.Index(target, part[1])
-			if splitStart == -1 {
-				target = ""
-			} else {
-				target = target[splitStart:]
-			}
-		} else if strings.HasPrefix(target, part[0]) {
-			target = strings.TrimPrefix(target, part[0])
-			// FIXME doesn't account for relative folders ie `./docs/examples`
-		} else {
-			result = false
-			break
-		}
+	// every `*` stands for any run of characters (also none): the text before the first star
+	// must start the name, the text after the last star must end it, and the pieces in
+	// between must occur in order in what is left
+	parts := strings.Split(matches, "*")
+	if !strings.HasPrefix(target, parts[0]) {
+		return false
 	}
-	return result
+	target = target[len(parts[0]):]
+	for _, part := range parts[1 : len(parts)-1] {
+		partStart := strings.Index(target, part)
+		if partStart == -1 {
+			return false
+		}
+		target = target[partStart+len(part):]
+	}
+	return strings.HasSuffix(target, parts[len(parts)-1])
 }
 
 func directoryExists(entries []os.DirEntry, name string) bool {
